@@ -319,7 +319,7 @@ pub fn run(ctx: &Ctx) -> Report {
     total.merge(sys);
     total.exhaustive_parts.push("every numeric carrier (46: ids, counts, -threads, -size x 8 unit spellings, 6 time tests x 5 unit spellings, -maxdepth/-mindepth) x values within +-2 of {0, 2^16, 2^31, 2^32, 2^63, 2^64, 2^64/unit for every unit} x {0,1,30} leading zeros x {none,+,-}, plus 20-40 digit strings".into());
 
-    let cases = ctx.tier.pick(30_000u32, 1_500_000u32);
+    let cases = ctx.tier.pick(300_000u32, 3_000_000u32);
     let shards = 16;
     let rnd = run_shards(shards, |shard| {
         let mut st = Stats::new();
